@@ -58,11 +58,14 @@ pub fn touches_shared(site: &str) -> bool {
     )
 }
 
-/// Account one hook event; returns the task it belongs to (0 = unknown / executor-level).
-pub fn account(site: &'static str, a: u64, b: u64) -> usize {
+/// Account one hook event (allocation tracking, access-after-dealloc detection); returns the task
+/// it belongs to (0 = unknown / executor-level) and whether it touches freed memory.
+/// `performed`: the announced access really happens now (false: the thread only arrived at the
+/// hook and will be parked by the schedule controller; it is logged when it is released).
+pub fn account(site: &'static str, a: u64, b: u64, performed: bool) -> (usize, bool) {
     let mut h = hs();
-    h.seq += 1;
     let mut task = 0;
+    let mut bad = false;
     match site {
         "exec.task.new" => {
             let t = h.cur_spawn;
@@ -88,7 +91,11 @@ pub fn account(site: &'static str, a: u64, b: u64) -> usize {
                 task = t;
             }
         }
-        "exec.free_shared" => h.shared_freed = true,
+        "exec.free_shared" => {
+            if performed {
+                h.shared_freed = true;
+            }
+        }
         _ => {
             if site.starts_with("exec.state.") {
                 if let Some(&t) = h.st2task.get(&a) {
@@ -96,6 +103,7 @@ pub fn account(site: &'static str, a: u64, b: u64) -> usize {
                 } else if let Some(&t) = h.freed.get(&a) {
                     h.uaf.push((t, site));
                     task = t;
+                    bad = true;
                 }
             } else if site.starts_with("exec.task.") || site.starts_with("exec.remote.") {
                 if let Some(&t) = h.hdr2task.get(&a) {
@@ -103,13 +111,23 @@ pub fn account(site: &'static str, a: u64, b: u64) -> usize {
                 } else if let Some(&t) = h.freed.get(&a) {
                     h.uaf.push((t, site));
                     task = t;
+                    bad = true;
                 }
                 if h.shared_freed && touches_shared(site) {
                     h.shared_uaf.push((task, site));
+                    bad = true;
                 }
             }
         }
     }
+    if performed {
+        log_locked(&mut h, site, a, b, task);
+    }
+    (task, bad)
+}
+
+fn log_locked(h: &mut HookState, site: &'static str, a: u64, b: u64, task: usize) {
+    h.seq += 1;
     if h.keep_log {
         let seq = h.seq;
         h.log.push(Ev {
@@ -121,11 +139,19 @@ pub fn account(site: &'static str, a: u64, b: u64) -> usize {
             thread: std::thread::current().id(),
         });
     }
-    task
+}
+
+/// Log an event whose access is performed now (a parked thread was released).
+pub fn log_performed(site: &'static str, a: u64, b: u64, task: usize) {
+    let mut h = hs();
+    if site == "exec.free_shared" {
+        h.shared_freed = true;
+    }
+    log_locked(&mut h, site, a, b, task);
 }
 
 fn sink(site: &'static str, a: u64, b: u64) {
-    account(site, a, b);
+    account(site, a, b, true);
 }
 
 /// Install the plain accounting sink (single-threaded replays).
